@@ -13,6 +13,23 @@ list passed); `c.Valid` = indices in range, control values non-negative.
 namespace QipVerif.C02
 open QipVerif.Sim QipVerif.Heap
 
+/-- an empty world whose heap holds the caller's lists -/
+def world0 (lists : List (List Int)) : World Exact.QS Exact.Prob :=
+  { heap := ⟨lists⟩, sim := none, rng := [], log := [], comp := defaultCompiler,
+    proc := { pulses := none, phase := 0 } }
+
+def cfgCurrent : Cfg :=
+  { copyCbits := false, checkCcv := false, resetPhase := false, pureGetter := false, dmRefuse := false,
+    copyRev := false, copyChain := false, noiseLocal := false }
+def cfgFixed : Cfg :=
+  { copyCbits := true, checkCcv := true, resetPhase := true, pureGetter := true, dmRefuse := true,
+    copyRev := true, copyChain := true, noiseLocal := true }
+
+/-- the exception of a call, if any -/
+def errOf {α : Type} : Except Err α → Option Err
+  | .error e => some e
+  | .ok _ => none
+
 /-! ## Classical control -/
 
 /-- **cond_iff.** A gate with classical controls `cs` (any number `k`, any order) and value `v < 2^k` acts iff
@@ -36,8 +53,7 @@ theorem valMSB_eq (b : Nat) (bs : List Nat) : valMSB (b :: bs) = b * 2 ^ bs.leng
 `Circuit.constructible` with `cfg.checkCcv`.) -/
 theorem C02_counterexample_ccv_out_of_range :
     checkCCV [0] 2 (some [1]) = .ok true ∧ (∀ b : Nat, b ≤ 1 → valMSB [b] ≠ 2) ∧
-    (Circuit.constructible { copyCbits := true, checkCcv := true, resetPhase := true, pureGetter := true }
-        { nq := 1, ncb := 1, ops := [.gate ⟨0, [0], some [0], 2⟩] } = false) := by
+    (Circuit.constructible cfgFixed { nq := 1, ncb := 1, ops := [.gate ⟨0, [0], some [0], 2⟩] } = false) := by
   refine ⟨by decide, ?_, by decide⟩
   intro b hb; unfold valMSB; simp; omega
 
@@ -212,6 +228,53 @@ theorem dm_eq_mixture_partial {Q V P : Type} [Semiring P] [AddCommMonoid V] [Mod
   rw [hmk]
   exact ⟨_, _, rfl, rfl, rfl⟩
 
+/-- **dm_mixture_or_refuse.** With fix C02-3 the density-matrix run of EVERY well-formed circuit is correct or
+refused: if no gate is conditioned on a bit written by an earlier measurement (`FF [] c.ops`, decidable from the
+circuit), it returns the probability-weighted mixture of the branches with probability 1; otherwise it raises
+`NotImplementedError`.  (The first half holds with or without the fix.) -/
+theorem dm_mixture_or_refuse {Q V P : Type} [Semiring P] [AddCommMonoid V] [Module P V]
+    (Bs : Backend Q P) (Bd : Backend V P) (dm : Q → V) (L : DmLink Bs Bd dm) (cfg : Cfg) (c : Circuit)
+    (hc : c.Valid) (w : World V P) (q0 : Q) (cb : Option Ref) (hf : Fresh cfg cb) (mr : Option (List Int)) :
+    (FF [] c.ops →
+      ∃ w' res, run Bd cfg .dm c w (dm q0) cb mr = (w', .ok res) ∧ res.probs = [1] ∧
+        res.states = [some (((records c.numMeas).map (fun r =>
+          (branchEntry Bs c (initBits c (cb.map w.heap.get)) q0 r).2.1 •
+            dmOpt dm (branchEntry Bs c (initBits c (cb.map w.heap.get)) q0 r).1)).sum)]) ∧
+    (¬ FF [] c.ops → cfg.dmRefuse = true → (run Bd cfg .dm c w (dm q0) cb mr).2 = .error .notimpl) := by
+  constructor
+  · intro hff
+    rw [run_fresh Bd cfg .dm c w (dm q0) cb mr hf]
+    have hres := coreRun_dm_eq_mixture_ff Bs Bd dm L cfg c hc hff (initBits c (cb.map w.heap.get))
+      (initBits_ok c _) q0 mr w.rng
+    dsimp only
+    generalize coreRun Bd cfg .dm c (initBits c (cb.map w.heap.get)) (dm q0) mr w.rng = ro at hres ⊢
+    obtain ⟨cbf, hmk⟩ : ∃ cbf, mkResult ro (ro.bits.map (fun _ => w.heap.size)) =
+        .ok { states := [some (((records c.numMeas).map (fun r =>
+                (branchEntry Bs c (initBits c (cb.map w.heap.get)) q0 r).2.1 •
+                  dmOpt dm (branchEntry Bs c (initBits c (cb.map w.heap.get)) q0 r).1)).sum)],
+              probs := [1], cbits := cbf } := by
+      unfold mkResult; rw [hres]; exact ⟨_, rfl⟩
+    rw [hmk]
+    exact ⟨_, _, rfl, rfl, rfl⟩
+  · intro hff hd
+    rw [run_fresh Bd cfg .dm c w (dm q0) cb mr hf]
+    have hres := coreRun_dm_refuses Bd cfg hd c hc hff (initBits c (cb.map w.heap.get)) (initBits_ok c _) (dm q0) mr
+      w.rng
+    dsimp only
+    unfold mkResult
+    rw [hres]
+
+-- non-vacuity: `M 0→c0; X if c1` has no feed-forward in the position-sensitive sense, `M 0→c0; X if c0` has
+example : FF [] [.meas 0 (some 0), .gate ⟨0, [1], some [1], 1⟩] ∧ ¬ FF [] [.meas 0 (some 0), .gate ⟨0, [1], some [0], 1⟩] := by
+  constructor
+  · refine ⟨?_, trivial⟩
+    intro cs hcs x hx
+    cases hcs
+    simp only [List.mem_cons, List.mem_nil_iff, or_false] at hx
+    subst hx; decide
+  · intro h
+    exact h.1 [0] rfl 0 (by simp) (by simp)
+
 -- non-vacuity of the hypothesis: a circuit measuring into bit 0 and conditioning on bit 1 has no feed-forward
 example : NoFeedForward [.meas 0 (some 0), .gate ⟨0, [1], some [1], 1⟩] (fun x => x = 1) := by
   constructor
@@ -229,14 +292,6 @@ example : NoFeedForward [.meas 0 (some 0), .gate ⟨0, [1], some [1], 1⟩] (fun
     · cases hm
 
 /-! ## Counter-examples on the unrepaired code (exact backend of the driver, decided by the kernel) -/
-
-/-- an empty world whose heap holds the caller's lists -/
-def world0 (lists : List (List Int)) : World Exact.QS Exact.Prob :=
-  { heap := ⟨lists⟩, sim := none, rng := [], log := [], comp := defaultCompiler,
-    proc := { pulses := none, phase := 0 } }
-
-def cfgCurrent : Cfg := { copyCbits := false, checkCcv := false, resetPhase := false, pureGetter := false }
-def cfgFixed : Cfg := { copyCbits := true, checkCcv := true, resetPhase := true, pureGetter := true }
 
 /-- `SNOT 0; measure 0 → c0` -/
 def circHM : Circuit := { nq := 1, ncb := 1, ops := [.gate ⟨4, [0], none, 0⟩, .meas 0 (some 0)] }
@@ -265,8 +320,10 @@ writes classical bits — ends in the ensemble `{|00⟩, |10⟩}`: the condition
 theorem C02_counterexample_dm_feedforward :
     ((runStatistics Exact.backend cfgFixed .sv circFF (world0 []) ket00 none).2.toOption.map (·.states))
       = some [some ⟨2, 1, [[1, 0, 0, 0]]⟩, some ⟨2, 1, [[0, 0, 0, 1]]⟩] ∧
-    ((run Exact.backend cfgFixed .dm circFF (world0 []) ket00 none none).2.toOption.map (·.states))
-      = some [some ⟨2, 1, [[1, 0, 0, 0], [0, 0, 1, 0]]⟩] := by
+    ((run Exact.backend { cfgFixed with dmRefuse := false } .dm circFF (world0 []) ket00 none none).2.toOption.map
+        (·.states)) = some [some ⟨2, 1, [[1, 0, 0, 0], [0, 0, 1, 0]]⟩] ∧
+    -- with fix C02-3 the same run is refused instead
+    errOf (run Exact.backend cfgFixed .dm circFF (world0 []) ket00 none none).2 = some Err.notimpl := by
   decide +kernel
 
 end QipVerif.C02
